@@ -17,6 +17,15 @@ CLAIMS = {
     "C38": ("proof", "who-may-call closure over the resolved call graph + MIR edge-dominance of duplicate-sequence tests before admission + provenance of the local sequence number",
             "Closes the set of functions that can add a change to the change graph (add_change(s), update_history, BatchApply, ChangeQueue::extend, ChangeBatch::push) and proves, inside the single admission function, that accepting a change is dominated by the false edges of both has_actor_seq tests (true edges return Err), that the queue is only extended after the loop, that BatchApply is fed from pop_topo_sorted_ready, that ChangeBatch::push tests in-batch duplicates before inserting, and that a local commit's seq is seq_for_actor+1 with the conflicting queued branch removed first.",
             "Decides the gating structure, not that the predicates compute the right answer for every history; ChangeGraph::load (ChangeCollector) is not covered.", "DESIGN.md §3 C38"),
+    "C23": ("proof", "structural rules on sync::bloom over MIR: shared probe function (call graph + provenance), bounds-tolerant bit access, Div/Rem assert inventory with dominating non-zero tests, return-value table of contains_hash",
+            "Proves that add_hash and contains_hash take probes from the same get_probes and reach the bit array only through get/get_mut with an identical byte/bit decomposition (so membership written is membership read), that every division/remainder in the module has a constant non-zero divisor or a dominating non-zero test (the only arithmetic panic that survives release builds), that array indexing in the query path is constant-in-range, and that `false` is returned only under the three enumerated conditions.",
+            "Decides the shape-level necessary conditions of 'no false negatives / no crash', not the probe arithmetic itself (u32 overflow of x+y needs a >256 MiB filter and panics only in debug builds) nor value round-trip (C19). The rule fired on the pinned tree (remainder by zero on a decoded filter without bits): repaired by fix: e8c64fed1.", "DESIGN.md §3 C23"),
+    "C30": ("proof", "provenance of OpId::new's actor-index argument + MIR edge-dominance by the hint-validation test; error return on failed lookup",
+            "In the two functions that turn external ids/cursors into internal OpIds, proves that the ExId's actor-index hint reaches OpId::new only under get_actor_safe(hint)==Some(actor), that every other index comes from lookup_actor(actor), and that a failed lookup returns Err.",
+            "Decides only the id-resolution clause (an unverified hint would address another actor's object after the actor table shifts); stability across merges and save/load is runtime state and not decided.", "DESIGN.md §3 C30"),
+    "C07": ("proof", "return-value table + edge-dominance for clock_at / get_scope; provenance of the clock argument in every heads-taking ReadDoc method (4 implementations, enumerated from the trait)",
+            "Proves that the unscoped fast path (clock None) is taken only when heads_are_current(heads), that every ReadDoc method with a heads parameter in Automerge, AutoCommit, Transaction and OwnedTransaction passes its worker a clock derived from that parameter and never a literal None, and that AutoCommit::get_scope uses the fast path only while no transaction is open.",
+            "Decides that historical reads are routed through a clock computed from the requested heads; does not decide that clock-scoped queries compute the historical value (runtime visibility).", "DESIGN.md §3 C07"),
 }
 
 NA_PLANNED = "rule designed in DESIGN.md §3 but its checker is not built in this revision, so nothing is claimed yet"
